@@ -57,8 +57,13 @@ class Report:
     def count(self, kind: str, n: int = 1):
         self.instances[kind] = self.instances.get(kind, 0) + n
 
-    def floor(self, kind: str, n: int):
+    def floor(self, kind: str, n: int, rule: str = None):
         self.floors[kind] = n
+        rule = rule or getattr(self, "_current_rule", None)
+        if rule is not None:
+            if not hasattr(self, "floor_rule"):
+                self.floor_rule = {}
+            self.floor_rule[kind] = rule
 
     def oblige(self, desc, discharged: bool, sample=None):
         """one non-trivial obligation examined by a rule"""
@@ -81,13 +86,32 @@ class Report:
             self.findings.append(f)
         return f
 
+    def guarded(self, rule, fn, *args):
+        """run one rule; an analysis error inside it is kept per rule, so that the other rules still run and the dispatcher can decide
+        whether a fold rule that decided the same behaviour stands in for it (check.settle)"""
+        prev = getattr(self, "_current_rule", None)
+        self._current_rule = rule
+        try:
+            fn(*args)
+        except AnalysisError as ex:
+            if not hasattr(self, "rule_errors"):
+                self.rule_errors = {}
+            self.rule_errors.setdefault(rule, str(ex))
+        finally:
+            self._current_rule = prev
+
     def touch(self, fi):
         self.files.add(fi.module.relpath)
         self.functions.add(fi.qname)
 
-    def check_floors(self):
+    def check_floors(self, stands_in=None):
         for k, n in self.floors.items():
             got = self.instances.get(k, 0)
+            r = getattr(self, "floor_rule", {}).get(k)
+            if got < n and r is not None and stands_in is not None and stands_in(r):
+                self.notes.append(f"{self.prop}-{r}: only {got} of at least {n} '{k}' recognised in this shape of the code -- the fold rule that decides the same "
+                                  f"behaviour stands in")
+                continue
             if got < n:
                 raise AnalysisError(
                     f"{self.prop}: rule instance count for '{k}' is {got}, below the confirmed floor {n} "
